@@ -329,6 +329,30 @@ func (P *Program) registerVH() {
 		v := in.concretize(t, "vh.Concrete")
 		return in.constLike(t, v)
 	})
+	P.reg(VH+".Settle", func(fr *frame, args []value) value { return nil })
+	P.reg(VH+".MustNotBlock", func(fr *frame, args []value) value {
+		in := fr.in
+		label := in.goStr(args[0], "label")
+		blocked := false
+		func() {
+			defer func() {
+				if r := recover(); r != nil {
+					if _, ok := r.(blockedSignal); ok {
+						blocked = true
+						return
+					}
+					panic(r)
+				}
+			}()
+			in.call(fr, 0, args[1], nil)
+		}()
+		if in.path.pos >= len(in.path.prefix) {
+			in.Assert(label, in.C.BoolConst(!blocked))
+		} else if blocked {
+			panic(pathEnd{"assertion false on whole path"})
+		}
+		return nil
+	})
 	P.reg(VH+".Symbolic", func(fr *frame, args []value) value { return fr.in.C.True() })
 	P.reg(VH+".SetUnwind", func(fr *frame, args []value) value { fr.in.Unwind = fr.in.mustInt(args[0], "unwind"); return nil })
 	P.reg(VH+".Logger", func(fr *frame, args []value) value {
